@@ -31,7 +31,10 @@ let zeq a b = (Z.compare a b) = Eq
 
 let parse_err (s : string) : an_err =
   let v = int_of_string s in
-  if v = 0 then AnNil else AnE (z_of_int v)
+  (* codes >= 101: a handler returns, as its OWN error, an error whose identity the pool uses itself (cmd/ftants herr):
+     the discard error of another pool, context.DeadlineExceeded, context.Canceled; 104 = a wrapped discard error *)
+  if v = 0 then AnNil else if v = 101 then AnDiscard else if v = 102 then AnDeadline else if v = 103 then AnCanceled
+  else AnE (z_of_int v)
 
 let parse_task (tok : string) : an_opts =
   match String.split_on_char '|' tok with
@@ -143,6 +146,112 @@ let replay (cfg : an_cfg) (tasks : an_opts array) (evs : ev list) : an_state * a
   (match !pending with p :: _ -> raise (Reject ("enqueue never enabled: " ^ p.txt)) | [] -> ());
   (!s, !hist)
 
+(* ---- complete search, used only when the greedy replay above rejects.
+   Within one instant the greedy drain commits to the first enabled event of the bag; the Go runtime resolved the
+   same-instant order some other way (e.g. at the instant a parent context is cancelled dozens of steps of several
+   tasks share one stamp), and a committed choice (which callback enters the FIFO inner channel first) can make a
+   later event of the log impossible although another order of the SAME events is accepted.  The search explores,
+   depth first, every order in which the enabled events of an instant can be applied (maximal progress: while some
+   event of the bag is enabled one of them is applied; the instant is complete when no event is enabled and only
+   enqueue hints remain), continuing into the following instants and backtracking across them.  Nodes with the same
+   set of remaining events and the same operational state (phases, fields, channels, workers) are explored once.
+   The answer is a history accepted by [an_step] event by event, exactly as in the greedy case. *)
+exception Budget
+
+let replay_search (cfg : an_cfg) (tasks : an_opts array) (evs : ev list) : (an_state * an_event list) option =
+  let nt = Array.length tasks in
+  let opkey (st : an_state) : string =
+    Marshal.to_string
+      (List.init nt (fun k -> let t = an_tk st (nat_of_int k) in (at_phase t, at_fields t, at_chan t)),
+       an_tchan st, an_sendq st, an_active st, an_ichan st, an_workers st, an_pc st, an_next st) [] in
+  let to_event (s : an_state) (next_seq : int) (x : ev) : an_event option =
+    let k = nat_of_int x.k and a = nat_of_int x.a in
+    match x.kind with
+    | 'S' -> if int_of_nat (an_next s) = x.k && x.k < nt then Some (AnSend tasks.(x.k)) else None
+    | 'P' -> Some (AnPick k)
+    | 'Q' -> if x.lo > next_seq then None
+      else (match at_phase (an_tk s k) with
+          | AnEnq (a', _) when int_of_nat a' = x.a -> Some (AnEnqueue k)
+          | _ -> None)
+    | 'H' -> Some (AnStart (k, a))
+    | 'R' -> Some (AnReturn (k, a, x.flag = '1'))
+    | 'U' -> Some (AnPublish (k, a))
+    | 'D' -> Some (AnDecide (k, x.flag = '1'))
+    | 'G' -> Some (AnGet2 k)
+    | 'C' -> Some AnParentCancel
+    | 'X' ->
+      if List.exists (function AnRun (k', a', _, r, _) -> k' = k && a' = a && zeq r (an_now s) | _ -> false) (an_workers s)
+      then Some AnParentCancel else None
+    | _ -> None in
+  (* instants *)
+  let rec split_groups (l : (int * ev) list) : (int * ev) list list =
+    match l with
+    | [] -> []
+    | (_, x) :: _ ->
+      let rec sp acc = function
+        | ((_, y) as p) :: r when zeq y.t x.t -> sp (p :: acc) r
+        | r -> (List.rev acc, r) in
+      let (g, rest) = sp [] l in
+      g :: split_groups rest in
+  let groups = Array.of_list (split_groups (List.mapi (fun i x -> (i, x)) evs)) in
+  let visited : (int * int list * string, unit) Hashtbl.t = Hashtbl.create 4096 in
+  let nodes = ref 0 in
+  (* gi = index of the next group to open; pending = events of opened groups not applied yet *)
+  let rec open_group (s : an_state) hist (pending : (int * ev) list) nseq gi =
+    if gi >= Array.length groups then (if pending = [] then Some (s, hist) else None)
+    else
+      let grp = groups.(gi) in
+      let t = (snd (List.hd grp)).t in
+      let now = an_now s in
+      if zlt t now then None
+      else
+        let adv = if zlt now t then
+            (let e = AnAdvance (Z.sub t now) in
+             match an_step cfg s e with Some s' -> Some (s', e :: hist) | None -> None)
+          else Some (s, hist) in
+        match adv with
+        | None -> None
+        | Some (s', hist') -> instant s' hist' (pending @ grp) nseq (gi + 1)
+  and instant (s : an_state) hist (pending : (int * ev) list) nseq gi =
+    incr nodes;
+    if !nodes > 60000 then raise Budget;
+    let key = (gi, List.map fst pending, opkey s) in
+    if Hashtbl.mem visited key then None
+    else begin
+      Hashtbl.add visited key ();
+      let any_enabled = ref false in
+      let rec try_each before = function
+        | [] -> None
+        | ((_, x) as p) :: rest ->
+          (match to_event s nseq x with
+           | Some e ->
+             (match an_step cfg s e with
+              | Some s' ->
+                any_enabled := true;
+                (match instant s' (e :: hist) (List.rev_append before rest) (if x.kind = 'Q' then nseq + 1 else nseq) gi with
+                 | Some r -> Some r
+                 | None ->
+                   (* a read (AnGet2) only appends to the ghost log at_get2: once enabled it stays enabled and it neither
+                      enables nor disables any other step, so applying it first loses no order: no alternative to try *)
+                   if x.kind = 'G' then None else try_each (p :: before) rest)
+              | None -> try_each (p :: before) rest)
+           | None -> try_each (p :: before) rest) in
+      match try_each [] pending with
+      | Some r -> Some r
+      | None ->
+        if !any_enabled then None
+        else if List.for_all (fun (_, x) -> x.kind = 'Q') pending then open_group s hist pending nseq gi
+        else None
+    end in
+  try open_group an_init [] [] 0 0 with Budget -> None
+
+let replay_any (cfg : an_cfg) (tasks : an_opts array) (evs : ev list) : an_state * an_event list =
+  try replay cfg tasks evs
+  with Reject m ->
+    (match replay_search cfg tasks evs with
+     | Some r -> r
+     | None -> raise (Reject m))
+
 let parse_args toks =
   match toks with
   | mode :: urg :: n :: nt :: rest ->
@@ -169,8 +278,13 @@ let show_state (s : an_state) (nt : int) : string =
   let ts = List.init nt (fun k -> show_task s k) in
   Printf.sprintf "OK maxrun=%d now=%s %s" (int_of_nat (an_maxrun s)) (string_of_z (an_now s)) (String.concat " " ts)
 
-let run_one cfg tasks evs =
+(* greedy replay only (diagnosis: how often the search is needed) *)
+let run_one_greedy cfg tasks evs =
   try let (s, _) = replay cfg tasks evs in show_state s (Array.length tasks)
+  with Reject m -> "REJECT " ^ m
+
+let run_one cfg tasks evs =
+  try let (s, _) = replay_any cfg tasks evs in show_state s (Array.length tasks)
   with Reject m -> "REJECT " ^ m
 
 (* Coq syntax *)
@@ -205,10 +319,15 @@ let () =
       | many ->
         let outs = List.sort_uniq compare (List.map (run_one cfg tasks) many) in
         "SET " ^ String.concat " || " outs);
+  Registry.register "antsgreedy" (fun toks ->
+      let (cfg, tasks, evs) = parse_args toks in
+      match resolutions evs with
+      | [one] -> run_one_greedy cfg tasks one
+      | many -> "SET " ^ String.concat " || " (List.sort_uniq compare (List.map (run_one_greedy cfg tasks) many)));
   Registry.register "antscoq" (fun toks ->
       let (cfg, tasks, evs) = parse_args toks in
       let evs = List.map (fun x -> if x.flag = '?' then { x with flag = '0' } else x) evs in
       try
-        let (s, hist) = replay cfg tasks evs in
+        let (s, hist) = replay_any cfg tasks evs in
         Printf.sprintf "COQ %s @@ [%s]" (ccfg cfg) (String.concat "; " (List.rev_map cev hist))
       with Reject m -> "REJECT " ^ m)
